@@ -15,7 +15,7 @@ PROP = {
     "assumptions": [
         "plugin unit: in one case of three the priority groups are called by free-text header values (gold / 'eu,us' / 'team a; q=1, b') instead of p0-p2: a request belongs to the group whose configured name equals its header value",
         "backlog unit: the queue gets the zero-value logger or a debug / trace level logger whose output is discarded, and in half of the cases the requests_in_queue gauge is read (Counts) before every roll-over",
-        "unit TestLargeBacklogOrder: 20-390 waiters (priorities 1-5, half of them with a 2.5 s time-to-live, the rest one hour) arriving 1 ms apart in two batches on a queue of 1-3 per 10 s; the clock moves to 1 ms before each roll-over first, so that every waiter whose time-to-live ended has taken notice, then across it; each window must release exactly its quota: the best (priority, arrival) waiters alive",
+        "unit TestLargeBacklogOrder: 20-390 waiters (priorities 1-5, half of them with a 2.5 s time-to-live, the rest one hour) arriving 1 ms apart in two batches on a queue of 1-3 per 10 s (in one case of four 40-150 per 10 s: a backlog of hundreds is drained within a few windows); the clock moves to 1 ms before each roll-over first, so that every waiter whose time-to-live ended has taken notice, then across it; each window must release exactly its quota: the best (priority, arrival) waiters alive",
         "unit TestConcurrentFirstArrivals: 2-10 arrivals run freely on real goroutines into a remedy the plugin has no queue for yet (1-4 remedies per case, quota 1-3, queue size 1-6, the queue factory taking 0-2 ms of real time); the virtual clock stands still until every arrival has returned or parked, then only the verdicts of that instant are judged: released <= quota, waiting <= size, rejected at once only if arrivals > quota + size",
         "aligned windows are [k*W, (k+1)*W): a release at exactly k*W belongs to window k (the roll-over itself happens at k*W)",
         "arrival instants are pairwise distinct (the harness moves the clock by 1 ns between two arrivals), so (priority, arrival) is a total order; equal instants would make the heap order unspecified",
@@ -30,7 +30,7 @@ PROP = {
         {"pkg": "c10", "test": "TestQueueSchedules", "quick": 10000, "thorough": 30000, "shards": 16},
         {"pkg": "c10", "test": "TestPluginSchedules", "quick": 3000, "thorough": 8000, "shards": 16},
         {"pkg": "c10", "test": "TestConcurrentFirstArrivals", "quick": 300, "thorough": 3000, "shards": 8},
-        {"pkg": "c10", "test": "TestLargeBacklogOrder", "quick": 60, "thorough": 600, "shards": 8},
+        {"pkg": "c10", "test": "TestLargeBacklogOrder", "quick": 60, "thorough": 600, "shards": 8, "shrinktime": "3s", "quick_timeout": 1800},
         {"pkg": "c10", "test": "TestWitnessLostHandoff", "kind": "plain"},
     ],
     "technique": ("stateful property-based testing (rapid) of generated schedules over the real queue / plugin on a virtual clock that steers the interleaving at the "
